@@ -39,6 +39,25 @@ Theorem library_exception_str_templates_constant : exceptions_str_templates_cons
 Proof. exact exceptions_templates_ok. Qed.
 Print Assumptions library_exception_str_templates_constant.
 
+(* THE SITE LIST AGAINST THE SOURCE (audit C17-1, C17-5).  The model is closed-world: a non-family class can only be
+   produced at one of its enumerated sites, so the family_only theorems below check the model's own labelling.  What ties
+   the list to the code, besides the correspondence run: translators/tr_c17flow.py walks the AST of the 20 functions the
+   model mirrors (parse, dict_to_stix2, parse_observable, _get_dict, detect_spec_version, class_for_type, _STIXBase.__init__,
+   _check_property, _check_object_constraints, _Observable.__init__/_check_ref/_check_property, check_tlp_marking, the
+   MarkingDefinition and Indicator hooks) in the repository under check and lists every subscript, attribute access /
+   method call on a non-module receiver, call of a plain name, call into a third-party module and raise, with the
+   handlers of the enclosing try blocks.  source_inventory_reviewed = true says: each of them is covered by an automatic
+   rule, by an entry of the hand-reviewed table (with the guard text / handlers that entry needs present), or is the
+   operation of one of the model's sites.  New code indexing raw input, a removed handler or guard makes it false. *)
+Theorem source_flow_inventory_closed : source_inventory_reviewed = true.
+Proof. exact source_inventory_ok. Qed.
+Print Assumptions source_flow_inventory_closed.
+
+(* ... and the same walk finds every site in its guarded form in the current source *)
+Theorem current_source_all_guarded : all_guarded source_variant.
+Proof. exact source_all_guarded. Qed.
+Print Assumptions current_source_all_guarded.
+
 (* parse(): for every input value, every decoder behaviour (json.loads), every
    registry without unknown hooks and EVERY behaviour of the property cleaners
    (a black box that returns or raises any Exception class), an escaping
@@ -106,6 +125,18 @@ Proof.
   apply ok_parse_file; [apply ok_clean_via; exact Hcl|exact HR].
 Qed.
 Print Assumptions family_only_parse_file.
+
+(* the variant read off the current source, on the live class tables *)
+Theorem current_source_family_only :
+  forall (cl : blackbox) (strictext refuse : bool) (dec : decoder) (x : jvalue) (ac io : bool) (version : option ustring),
+  well_behaved cl ->
+  forall e s, In (Exc e s) (parse source_variant live (clean_via cl) strictext refuse dec x ac io version) -> family e = true.
+Proof.
+  intros cl strictext refuse dec x ac io version Hcl e s Hin.
+  eapply ok_all_guarded; [exact source_all_guarded| |exact Hin].
+  apply ok_parse; [apply ok_clean_via; exact Hcl|exact live_known].
+Qed.
+Print Assumptions current_source_family_only.
 
 (* direct construction of any class without unknown hooks *)
 Theorem family_only_construct :
